@@ -95,7 +95,9 @@ inline std::vector<uint8_t> predictWritten(const RMap& m)
 }
 
 // saved game: 0x1E025 opaque bytes, map beginning, tag, unit block, tag
-struct RSavedUnits { uint32_t unitCount = 0, lastUsed = 0, nextFree = 0, firstFree = 0, sizeOfUnit = 120; uint32_t n1 = 0, n2 = 0; bool withFreeList() const { return firstFree != nextFree; } };
+struct RSavedUnits { uint32_t unitCount = 0, lastUsed = 0, nextFree = 0, firstFree = 0, sizeOfUnit = 120; uint32_t n1 = 0, n2 = 0; bool withFreeList() const { return firstFree != nextFree; }
+	uint64_t tableRecordBytes = 120;   // bytes per record actually present in the file's unit table (120 in the format; other values build files in which the table follows the sizeOfUnit field)
+};
 
 inline std::vector<uint8_t> encodeSavedGame(const RMap& m, const RSavedUnits& u, std::vector<Field>* f = nullptr, std::size_t* consumed = nullptr)
 {
@@ -114,7 +116,7 @@ inline std::vector<uint8_t> encodeSavedGame(const RMap& m, const RSavedUnits& u,
 	for (uint32_t i = 0; i < u.n1; ++i) for (int k = 0; k < 512; ++k) v.push_back(uint8_t(k + i));
 	for (uint32_t i = 0; i < u.n2; ++i) mc::put32(v, i * 3);
 	mc::put32(v, 11); mc::put32(v, 12);
-	for (std::size_t i = 0; i < 2047 * 120; ++i) v.push_back(uint8_t(i));
+	for (std::size_t i = 0; i < 2047 * u.tableRecordBytes; ++i) v.push_back(uint8_t(i));
 	if (u.withFreeList()) for (uint32_t i = 0; i < 2048; ++i) mc::put32(v, i);
 	F(4, "versionTag3"); mc::put32(v, m.tag3);
 	if (consumed) *consumed = v.size();
